@@ -237,4 +237,88 @@ Proof.
       exact H.
 Qed.
 
+(** dict *)
+Definition TR (t : doc * doc * (unit -> doc)) (p : expr * expr) : Prop :=
+  DT (fst (fst t)) (etoks (fst p)) /\ DT (snd (fst t)) (etoks (snd p)) /\ DT (snd t tt) (etoks (snd p)).
+
+Lemma DT_LBRACE : DT LBRACE [TP [123]%N].
+Proof. apply (DT_tok 13 [123]%N). discriminate. Qed.
+Lemma DT_RBRACE : DT RBRACE [TP [125]%N].
+Proof. apply (DT_tok 13 [125]%N). discriminate. Qed.
+
+Lemma dict_d_DT ctx sub tr sorted triples pairs :
+  match sub with Some w => wf_cls w | None => True end ->
+  Forall2 TR (triples tt) pairs ->
+  DT (dict_d is_space_u is_linebreak ctx sub (truthy tr) sorted triples)
+     (etoks (edict (ectx_of ctx) sub sorted pairs (trb tr))).
+Proof.
+  intros Hw HF. unfold dict_d, edict. cbv zeta. rewrite is0_ectx.
+  set (constructor := match sub with Some c => c | None => cls_of n_dict end).
+  assert (Hc : wf_cls constructor) by (unfold constructor; destruct sub; auto; apply wf_cls_of).
+  assert (En : cn_name constructor = match sub with Some w => cn_name w | None => n_dict end)
+    by (unfold constructor; now destruct sub).
+  rewrite <- En.
+  replace (match sub with None => true | Some _ => false end) with (negb (is_some sub)) by now destruct sub.
+  destruct (depth_is0 ctx) eqn:E0.
+  - assert (Hlit : DT (Cat [LBRACE; ELLIPSIS; RBRACE]) (etoks (ESeq KSet [EEllipsis] false))).
+    { apply DT_cat. cbn [etoks map sepcomma app opener closer]. apply DTL_cons1; [apply DT_LBRACE|].
+      apply DTL_cons1; [apply DT_ELLIPSIS|]. apply DTL_one, DT_RBRACE. }
+    destruct sub as [w|]; cbn [is_some negb]; [|exact Hlit].
+    exact (build_fncall_DT is_space_u is_linebreak ctx (general_identifier constructor)
+             [TName (cn_name constructor)] [Cat [LBRACE; ELLIPSIS; RBRACE]]
+             [etoks (ESeq KSet [EEllipsis] false)] [] [] true (DT_ident _ Hc)
+             ltac:(constructor; [exact Hlit|constructor]) (Forall2_nil _)).
+  - pose proof (Forall2_length _ _ _ HF) as Hlen. rewrite Hlen.
+    cbn [ectx_of e_maxlen e_sort].
+    set (trunc := (c_maxlen ctx <? Z.of_nat (length pairs))%Z).
+    set (tr' := if trunc then Some (join_comments (trunc_comment (Z.of_nat (length pairs) - c_maxlen ctx)) (truthy tr))
+                else truthy tr).
+    assert (Htr : is_some tr' = trunc || trb tr).
+    { unfold tr'. destruct trunc; [reflexivity|]. apply is_some_truthy. }
+    set (shownT := take_z (c_maxlen ctx) (if c_sort ctx then reorder (triples tt) sorted else triples tt)).
+    set (shownE := take_z (c_maxlen ctx) (if c_sort ctx then reorder pairs sorted else pairs)).
+    assert (HS : Forall2 TR shownT shownE).
+    { unfold shownT, shownE. apply Forall2_take_z. destruct (c_sort ctx); [now apply Forall2_reorder|exact HF]. }
+    pose proof (dict_parts_DT is_space_u is_linebreak ctx shownT
+                  (map (fun p => (etoks (fst p), etoks (snd p))) shownE)) as HP.
+    assert (HS' : Forall2 (fun tr0 pt => DT (fst (fst tr0)) (fst pt) /\ DT (snd (fst tr0)) (snd pt) /\ DT (snd tr0 tt) (snd pt))
+                    shownT (map (fun p => (etoks (fst p), etoks (snd p))) shownE)).
+    { clear -HS. induction HS as [|t p l l' H _ IH]; cbn [map]; constructor; auto. }
+    specialize (HP HS'). rewrite map_map in HP. unfold pairtoks in HP. cbn [fst snd] in HP.
+    pose proof (Forall2_length _ _ _ HS) as HlenS.
+    destruct (dict_parts is_space_u is_linebreak ctx shownT) as [parts0 hc0] eqn:Ep. cbn [fst] in HP.
+    assert (Hparts : DTL (match tr' with
+                          | Some t => parts0 ++ [Cat [HardLine; commentdoc is_space_u is_linebreak t]]
+                          | None => parts0 end)
+                         (sepcomma (map (fun x => etoks (fst x) ++ p_colon :: etoks (snd x)) shownE))).
+    { destruct tr' as [t|]; [|exact HP].
+      rewrite <- (app_nil_r (sepcomma _)). apply DTL_app; [exact HP|].
+      apply DTL_one, DT_cat. apply DTL_nilhead; [constructor|]. apply DTL_one, DT_commentdoc. }
+    set (parts := match tr' with
+                  | Some t => parts0 ++ [Cat [HardLine; commentdoc is_space_u is_linebreak t]]
+                  | None => parts0 end) in *.
+    set (body := bracket ctx LBRACE (Cat parts) RBRACE).
+    assert (Hd : forall b : bool, DT (if b then AlwaysBreak body else Group body) (etoks (EDict shownE))).
+    { intros b. cbn [etoks].
+      assert (HB := DT_bracket ctx LBRACE (Cat parts) RBRACE _ _ _ DT_LBRACE (DT_cat _ _ Hparts) DT_RBRACE).
+      cbn [app] in HB. destruct b; [now apply DT_ab|now apply DT_group]. }
+    destruct sub as [w|]; cbn [is_some negb].
+    + assert (Hcall : forall b : bool, DT (build_fncall is_space_u is_linebreak ctx (general_identifier constructor)
+                 [if b then AlwaysBreak body else Group body] [] true)
+                 (etoks (ECall (cn_name constructor) [EDict shownE] []))).
+      { intros b. exact (build_fncall_DT is_space_u is_linebreak ctx (general_identifier constructor)
+             [TName (cn_name constructor)] [_] [etoks (EDict shownE)] [] [] true (DT_ident _ Hc)
+             ltac:(constructor; [exact (Hd b)|constructor]) (Forall2_nil _)). }
+      fold shownE. rewrite <- Htr.
+      destruct tr' as [t|]; cbn [is_some].
+      * assert (Hne : parts <> []) by (unfold parts; destruct parts0; discriminate).
+        destruct parts as [|p0 pr]; [congruence|]. destruct shownE; apply Hcall.
+      * destruct shownE as [|e0 er].
+        -- destruct shownT; [|discriminate]. cbn in Ep. inversion Ep; subst. now apply call_noargs_DT.
+        -- destruct shownT as [|t0 trest]; [discriminate|]. cbn [dict_parts] in Ep.
+           destruct t0 as [[k0 x0] xp0].
+           destruct (dict_part _ _ ctx _ k0 x0 xp0), (dict_parts _ _ ctx trest). inversion Ep; subst. apply Hcall.
+    + apply Hd.
+Qed.
+
 End PrettyToks2.
